@@ -20,6 +20,9 @@ def baseScope (c : Ctx) : Val :=
   | some l => .cons "//" l .nil
   | none => .nil
 
+/-- Parse: `rscopes := []rel.Scope{baseScope(ctx)}` (before the repair: the empty scope) -/
+def parseScope0 (W : World) (c : Ctx) : Val := if W.fixes.macroLib then baseScope c else .nil
+
 /-- the expression unpackMacro evaluates for the grammar of our macros: //grammar.lang.wbnf -/
 def grammarRef : Ast := .dot (.dot (.pkg "grammar") "lang") "wbnf"
 
@@ -50,33 +53,40 @@ def getAttr (t : Val) (k : String) : Res :=
 variable (W : World)
 
 mutual
-/-- pc.Parse + pc.CompileExpr: macros are expanded and imports resolved while compiling -/
-def compile : Nat → Ctx → Ast → CRes
-  | 0, _, _ => (none, [])
-  | n+1, c, a =>
+/-- pc.Parse + pc.CompileExpr: macros are expanded and imports resolved while compiling.  `ps` is the parser's
+parse-time scope (the top of `rscopes`): it starts as `baseScope(ctx)`, every `let` pushes its bindings
+(the `bind` hook) and nothing is ever popped; macro expressions are evaluated in it. -/
+def compile : Nat → Ctx → Val → Ast → CRes
+  | 0, _, _, _ => (none, [])
+  | n+1, c, ps, a =>
     match a with
-    | .lam x b => (compile n c b).map (.lam x)
-    | .app f x => (compile n c f).bind fun f' => (compile n c x).map (.app f')
-    | .letE x v b => (compile n c v).bind fun v' => (compile n c b).map (.letE x v')
-    | .tcons k v r => (compile n c v).bind fun v' => (compile n c r).map (.tcons k v')
-    | .dot e k => (compile n c e).map (.dot · k)
+    | .lam x b => (compile n c ps b).map (.lam x)
+    | .app f x => (compile n c ps f).bind fun f' ps1 => (compile n c ps1 x).map (.app f')
+    | .letE x v b =>
+      (compile n c ps v).bind fun v' ps1 =>
+      -- the `bind` hook: `.` ↦ ExprClosure(rscopes.top, expr), then the pattern's name ↦ the same expression
+      let ps2 := (ps1.bind "." (.thunk ps1 v')).bind x (.thunk ps1 v')
+      (compile n c ps2 b).map (.letE x v')
+    | .tcons k v r => (compile n c ps v).bind fun v' ps1 => (compile n c ps1 r).map (.tcons k v')
+    | .dot e k => (compile n c ps e).map (.dot · k)
     | .imp p =>
       -- compilePackage, PKGPATH branch
       if W.fixes.importReject && c.sandboxed then (none, []) else
       match lookupFile W.fs p with
-      | none => (none, [.did .readFile p])
-      | some .bytes => (some (.imported (.lit .data)), [.did .readFile p])
+      | none => (none, [.imported p])
+      | some .bytes => (some (.imported (.lit .data), ps), [.imported p])
       | some (.code src) =>
-        let r := compile n c src
-        (r.1.map .imported, .did .readFile p :: r.2)
+        -- Compile(ctx, filename, data): a parse of its own, starting from baseScope(ctx)
+        let r := compile n c (parseScope0 W c) src
+        (r.1.map fun x => (.imported x.1, ps), .imported p :: r.2)
     | .mac f =>
-      -- parse.go "ast" external + unpackMacro: the macro expression is evaluated at parse time
-      let rscope := if W.fixes.macroLib then baseScope c else .nil
-      (run n c rscope grammarRef).bindC fun _ =>
-      (compile n c f).bind fun f' =>
-      (run n c rscope f').bindC fun fv =>
-      (call n c fv .data).bindC fun v => (some (.lit v), [])
-    | a => (some a, [])
+      -- parse.go "ast" external + unpackMacro: the macro expression is evaluated at parse time, in the
+      -- parse-time scope as it is after the macro expression itself was parsed
+      (compile n c ps f).bind fun f' ps1 =>
+      (run n c ps1 grammarRef).bindC fun _ =>
+      (run n c ps1 f').bindC fun fv =>
+      (call n c fv .data).bindC fun v => (some (.lit v, ps1), [])
+    | a => (some (a, ps), [])
 
 /-- Expr.Eval -/
 def run : Nat → Ctx → Val → Ast → Res
@@ -89,8 +99,12 @@ def run : Nat → Ctx → Val → Ast → Res
     | .lit v => ok v
     | .tnil => ok .nil
     | .var x =>
-      -- IdentExpr.Eval / DynIdentExpr.Eval (ctx.Value(DynIdent(ident)))
-      (match (if isDyn x then c.dyn else s).get x with | some v => ok v | none => fail)
+      -- IdentExpr.Eval: the bound expression is evaluated (a value evaluates to itself, an ExprClosure in its
+      -- own scope) / DynIdentExpr.Eval (ctx.Value(DynIdent(ident)))
+      (match (if isDyn x then c.dyn else s).get x with
+      | some (.thunk env e) => run n c env e
+      | some v => ok v
+      | none => fail)
     | .lam x b => ok (.clo s x b)                                   -- Function.Eval: NewClosure(local, f)
     | .app f a =>                                                   -- BinExpr.Eval: a, then b, then Call
       (run n c s f).bind fun vf => (run n c s a).bind fun va => call n c vf va
@@ -161,7 +175,8 @@ def contextualEval : Nat → Ctx → EvalConfig → Val → Res
   | n+1, c, ec, v =>
     match v with
     | .src a =>
-      -- the Go context — and with it every dynamic variable the caller bound — is passed on unchanged
+      -- withSandbox: the context is wrapped in a barrier that hides the dynamic variables bound outside
+      -- (before that repair the Go context — and every dynamic variable of the caller — was passed on unchanged)
       let c' : Ctx := if W.fixes.dynBarrier then { c with dyn := .nil } else c
       evalWithScope n { c' with sandboxed := true } a (sandboxScope W ec)
     | _ => fail
@@ -173,9 +188,9 @@ def evalWithScope : Nat → Ctx → Ast → Val → Res
     let c1 : Ctx := match s.get "//" with
       | some l => { c with lib := some l }
       | none => c
-    match compile n { c1 with compiling := true } a with
+    match compile n { c1 with compiling := true } (parseScope0 W c1) a with
     | (none, l) => (none, l)
-    | (some a', l) =>
+    | (some (a', _), l) =>
       let r := run n { c1 with compiling := false } s a'
       (r.1, l ++ r.2)
 end
